@@ -297,6 +297,15 @@ def run(chk):
                 br_ = a0 + L0 * np.concatenate([[0.0], np.cumsum(w_)]) / w_.sum()
                 br_[-1] = a0 + L0
                 todo.append(H.Sp(pdeg, per, 'random', br_))
+        # break points that are non-uniform but exactly mirror-symmetric about the middle of the domain (a grid refined symmetrically
+        # about v = 0), every degree, periodic and clamped
+        for k in range(chk.n(10, 40)):
+            pdeg = 1 + k % 5
+            per = k % 2 == 0
+            half = [rng.choice([0.25, 0.5, 1.0, 1.5, 2.0]) for _ in range(rng.randint(max(2, (pdeg + 2) // 2), 4))]
+            w_ = half + ([rng.choice([0.5, 1.0])] if k % 3 == 0 else []) + half[::-1]
+            L_ = float(sum(w_))
+            todo.append(H.Sp(pdeg, per, 'dyadic', -L_ / 2 + np.concatenate([[0.0], np.cumsum(w_)])))
         # strongly graded clamped spaces (one very short cell, high degree on few cells): some weights are NEGATIVE there
         for k in range(chk.n(10, 60)):
             pdeg = rng.choice([3, 3, 4, 5])
